@@ -503,13 +503,58 @@ def corr_more(ctx: Ctx, drv):
             ctx.corr_case("adaptive sub-step count", {"n": n, "dt": dt, "spike": it % 8 == 0}, out, real_nsub, ok)
 
 
+def corr_crossing(ctx: Ctx, drv):
+    """real `_detect_crossings` on random batches (hold-off histories, swapped neighbouring states) vs the compiled Lean model `Crossing.detectBatch`:
+    swap table, new hold-off counters and zeroed coupling pairs.  Overlaps are sent in thousandths (only comparisons with 0.9 matter; entries
+    within 2e-3 of the threshold are avoided by construction of the generator); the permutation of every trajectory is the one the real
+    `_compute_perm_from_overlap` returns for it."""
+    import torch
+
+    rng = ctx.rng
+    n_cases = 60 if ctx.thorough else 20
+    for it in range(n_cases):
+        nmol, n = int(rng.integers(1, 6)), int(rng.integers(2, 7))
+        nov = n + 3
+        ref, tgt, hold, prev, active, nd0, nd1 = _crossing_inputs(rng, nmol, n, nov)
+        ov = np.abs(np.einsum("nia,nja->nij", ref, tgt))
+        if np.any(np.abs(ov - 0.9) < 2e-3):
+            continue
+        dyn = _dyn(nmol, n)
+        # (copies: the routine resets hold-off counters in place)
+        dyn._active_states = torch.tensor(np.array(active), dtype=torch.long)
+        dyn.post_hop_holdoff = torch.tensor(np.array(hold), dtype=torch.long)
+        dyn.prev_state = torch.tensor(np.array(prev), dtype=torch.long)
+        co = {"cis_amp": torch.as_tensor(ref), "nac_dot": torch.as_tensor(nd0).clone()}
+        cn = {"cis_amp": torch.as_tensor(tgt), "nac_dot": torch.as_tensor(nd1).clone()}
+        # the windowed overlap exactly as the routine forms it, and the real permutation of every row
+        idx = np.arange(n)
+        win = np.abs(idx[:, None] - idx[None, :]) <= 2
+        ovw = np.where(win[None], ov, 0.0)
+        perms = dyn._compute_perm_from_overlap(torch.as_tensor(ovw)).numpy().astype(int)
+        sw = dyn._detect_crossings(co, cn)
+        toks = ["crossing", nmol, n, 900]
+        for m in range(nmol):
+            toks += [int(active[m]), int(hold[m]), int(prev[m])] + [int(round(v * 1000)) for v in ovw[m].reshape(-1)] + [int(v) for v in perms[m]]
+        ans = drv.ask(*toks)
+        # implementation side in the model's output format
+        zero = sorted({(m, i, j) for m in range(nmol) for i in range(n) for j in range(n) if nd1[m, i, j] != 0.0 and float(cn["nac_dot"][m, i, j]) == 0.0})
+        impl = (["none"] if sw is None else ["some"] + [str(int(v)) for v in sw.numpy().reshape(-1)]) + ["h"] + [str(int(v)) for v in dyn.post_hop_holdoff.numpy()] + \
+               ["z", str(len(zero))] + [str(v) for t in zero for v in t]
+        ok = list(ans) == impl
+        ctx.corr_case("_detect_crossings (batch bookkeeping)", {"nmol": nmol, "n": n, "active": active.tolist(), "holdoff": hold.tolist(), "prev": prev.tolist()}, list(ans)[:40], impl[:40], ok,
+                      stratum=("table" if sw is not None else "none") + ("+holdoff" if (hold > 0).any() else ""), nontrivial=sw is not None or bool((hold > 0).any()))
+
+
 def run(ctx: Ctx):
     leanproj.check_theorems(ctx, MODULE, THEOREMS)
+    from .registry import THEOREMS_C17B
+    leanproj.check_theorems(ctx, "PyseqmVerif.Properties.C17b", THEOREMS_C17B)
     drv = leanproj.Driver()
     try:
         try:
             corr_hop(ctx, drv)
             corr_more(ctx, drv)
+            corr_crossing(ctx, drv)
         except Exception:
             import traceback
             ctx.obligation("correspondence adapters C17 ran", False, traceback.format_exc()[-1500:], kind="harness")
